@@ -1,0 +1,188 @@
+//go:build verif
+
+package network
+
+import (
+	"bytes"
+	"io"
+	"net"
+	"sync"
+	"time"
+
+	"github.com/icon-project/goloop/common/log"
+	"github.com/icon-project/goloop/module"
+)
+
+// verifC32Conn records everything the local side writes.
+type verifC32Conn struct {
+	buf  bytes.Buffer
+	done chan struct{}
+	once sync.Once
+}
+
+// Read blocks until the connection is closed: the receive routine that
+// nextOnPeer starts must not close the peer behind the harness' back.
+func (c *verifC32Conn) Read(p []byte) (int, error) {
+	<-c.done
+	return 0, io.EOF
+}
+func (c *verifC32Conn) Write(p []byte) (int, error) { return c.buf.Write(p) }
+func (c *verifC32Conn) Close() error {
+	c.once.Do(func() { close(c.done) })
+	return nil
+}
+func (c *verifC32Conn) LocalAddr() net.Addr                { return &net.TCPAddr{IP: net.IPv4(127, 0, 0, 1), Port: 1} }
+func (c *verifC32Conn) RemoteAddr() net.Addr               { return &net.TCPAddr{IP: net.IPv4(127, 0, 0, 1), Port: 2} }
+func (c *verifC32Conn) SetDeadline(t time.Time) error      { return nil }
+func (c *verifC32Conn) SetReadDeadline(t time.Time) error  { return nil }
+func (c *verifC32Conn) SetWriteDeadline(t time.Time) error { return nil }
+
+// verifC32Next is the handler after the authenticator; it records hand-over.
+type verifC32Next struct {
+	got   *Peer
+	gotID module.PeerID
+	count int
+}
+
+func (n *verifC32Next) onPeer(p *Peer)                { n.got = p; n.gotID = p.ID(); n.count++ }
+func (n *verifC32Next) onPacket(pkt *Packet, p *Peer) {}
+func (n *verifC32Next) onClose(p *Peer)               {}
+func (n *verifC32Next) setNext(ph PeerHandler)        {}
+
+const VerifC32Channel = "verif"
+
+func verifC32Logger() log.Logger {
+	l := log.New()
+	l.SetOutput(io.Discard)
+	return l
+}
+
+// VerifC32Authenticator exposes the constructor.
+func VerifC32Authenticator(w module.Wallet) *Authenticator {
+	return newAuthenticator(w, verifC32Logger())
+}
+
+type VerifC32Session struct {
+	a      *Authenticator
+	p      *Peer
+	conn   *verifC32Conn
+	next   *verifC32Next
+	remote *secureKey
+	off    int
+}
+
+// VerifC32NewSession creates an authenticator (suites none+ecdhe: tls needs a
+// live remote endpoint), a fresh peer object on a recording connection, and
+// calls the real onPeer.
+func VerifC32NewSession(w module.Wallet, in bool) *VerifC32Session {
+	l := verifC32Logger()
+	a := newAuthenticator(w, l)
+	if err := a.SetSecureSuites(VerifC32Channel, []SecureSuite{SecureSuiteNone, SecureSuiteEcdhe}); err != nil {
+		panic(err)
+	}
+	s := &VerifC32Session{a: a, conn: &verifC32Conn{done: make(chan struct{})}, next: &verifC32Next{}}
+	s.p = newPeer(s.conn, in, "", l)
+	if !in {
+		s.p.setChannel(VerifC32Channel)
+	}
+	a.setNext(s.next)
+	s.remote = newSecureKey(DefaultSecureEllipticCurve, nil)
+	a.onPeer(s.p)
+	return s
+}
+
+// Dispose closes the peer (ends the routines started by a hand-over).
+func (s *VerifC32Session) Dispose() {
+	s.p.Close("verif dispose")
+	s.conn.Close()
+}
+
+// RemoteParam is the ephemeral public key of the simulated remote side.
+func (s *VerifC32Session) RemoteParam() []byte { return s.remote.marshalPublicKey() }
+
+// Deliver hands a packet of protocol p2pProtoAuth to the real onPacket.
+func (s *VerifC32Session) Deliver(sub uint16, payload []byte) {
+	// src as read from the wire is never nil (handleSignatureResponse compares it)
+	pkt := newPacket(p2pProtoAuth, module.ProtocolInfo(sub), payload, NewPeerID(make([]byte, peerIDSize)))
+	s.a.onPacket(pkt, s.p)
+}
+
+// Sent parses what the local side wrote since the last call: sub protocols
+// and payloads of plain packets, and the number of trailing bytes that do not
+// parse as packets (written through a SecureConn).
+func (s *VerifC32Session) Sent() (subs []uint16, payloads [][]byte, opaque int) {
+	data := s.conn.buf.Bytes()[s.off:]
+	for len(data) > 0 {
+		pkt := &Packet{}
+		n, err := pkt.ReadFrom(bytes.NewReader(data))
+		if err != nil || pkt.protocol != p2pProtoAuth {
+			opaque = len(data)
+			break
+		}
+		subs = append(subs, pkt.subProtocol.Uint16())
+		payloads = append(payloads, pkt.payload)
+		data = data[n:]
+	}
+	s.off = s.conn.buf.Len()
+	return
+}
+
+// State reports closed, handed over (and with which id), p.ID(), and the
+// waitInfo attribute (sub protocol, processing; ok=false when absent).
+func (s *VerifC32Session) State() (closed, handed bool, handedID, id []byte, wait uint16, processing, hasWait bool) {
+	closed = s.p.IsClosed()
+	handed = s.next.got == s.p
+	if handed && s.next.gotID != nil {
+		handedID = s.next.gotID.Bytes()
+	}
+	if pid := s.p.ID(); pid != nil {
+		id = pid.Bytes()
+	}
+	if v, ok := s.p.GetAttr(AttrWaitSubProtocolInfo); ok {
+		if wi, ok := v.(*waitInfo); ok {
+			wait, processing, hasWait = wi.pi.Uint16(), wi.processing, true
+		}
+	}
+	return
+}
+
+func (s *VerifC32Session) HandOverCount() int { return s.next.count }
+
+// LocalExtra is p.secureKey.extra (nil before the secure stage).
+func (s *VerifC32Session) LocalExtra() []byte {
+	if s.p.secureKey == nil {
+		return nil
+	}
+	return s.p.secureKey.extra
+}
+
+// LocalParam is the local ephemeral public key (nil before it exists).
+func (s *VerifC32Session) LocalParam() []byte {
+	if s.p.secureKey == nil {
+		return nil
+	}
+	return s.p.secureKey.marshalPublicKey()
+}
+
+// RemoteExtra runs the remote side's key derivation against the local
+// ephemeral key: what an honest remote would sign.
+func (s *VerifC32Session) RemoteExtra(sas byte) ([]byte, error) {
+	lp := s.LocalParam()
+	if lp == nil {
+		return nil, io.ErrUnexpectedEOF
+	}
+	if err := s.remote.setup(SecureAeadSuite(sas), lp, !s.p.In(), 2); err != nil {
+		return nil, err
+	}
+	return s.remote.extra, nil
+}
+
+// VerifC32OtherSecret is the secret of an unrelated session.
+func VerifC32OtherSecret() []byte {
+	k1 := newSecureKey(DefaultSecureEllipticCurve, nil)
+	k2 := newSecureKey(DefaultSecureEllipticCurve, nil)
+	if err := k1.setup(SecureAeadSuiteNone, k2.marshalPublicKey(), true, 2); err != nil {
+		panic(err)
+	}
+	return k1.extra
+}
